@@ -8,14 +8,14 @@ package base
 //@ spec func slotOf(t, L, n) = (t / L) % n
 
 //@ func calculateStartTime(now, L) r
-//@   props C08
+//@   props C08, C02
 //@   requires L > 0
 //@   ensures[def] r == startOf(now, L)
 //@   ensures[aligned] r % L == 0 && r <= now && now < r + L
 //@   modifies nothing
 
 //@ func (la *LeapArray) calculateTimeIdx(now) r
-//@   props C08
+//@   props C08, C02
 //@   requires la != nil && la.bucketLengthInMs > 0 && la.array != nil && la.array.length > 0 && now < 4611686018427387904
 //@   ensures[def] r == slotOf(now, la.bucketLengthInMs, la.array.length)
 //@   ensures[range] 0 <= r && r < la.array.length
@@ -29,14 +29,14 @@ package base
 
 // a bucket is outside the array's horizon: it starts in the future or more than one interval ago
 //@ func (la *LeapArray) isBucketDeprecated(now, ww) r
-//@   props C08
+//@   props C08, C02
 //@   requires la != nil && ww != nil && now < 4611686018427387904 && ww.BucketStart < 4611686018427387904
 //@   ensures[def] r <==> (ww.BucketStart > now || now - ww.BucketStart > la.intervalInMs)
 //@   modifies nothing
 
 // the window of a view (interval Iv) over an array with bucket length L, ending at the bucket of timeMs
 //@ func (m *SlidingWindowMetric) getBucketStartRange(timeMs) (start, end)
-//@   props C08
+//@   props C08, C02
 //@   requires m != nil && m.real != nil && m.real.data.bucketLengthInMs > 0 && timeMs < 4611686018427387904
 //@   let L = m.real.data.bucketLengthInMs
 //@   case regular: startOf(timeMs, L) + L >= m.intervalInMs
@@ -54,7 +54,7 @@ package base
 //@ spec func validEvent(e) = 0 <= e && e < base.MetricEventTotal
 
 //@ func (mb *MetricBucket) Add(event, count)
-//@   props C08, C09
+//@   props C08, C09, C02
 //@   requires mb != nil && small(count) && (validEvent(event) ==> small(mb.counter[event]))
 //@   ensures[counted] validEvent(event) ==> mb.counter[event] == old(mb.counter[event]) + count
 //@   ensures[others] forall e Int :: e != event || !validEvent(event) ==> mb.counter[e] == old(mb.counter[e])
@@ -62,7 +62,7 @@ package base
 //@   modifies mb.counter, mb.minRt
 
 //@ func (mb *MetricBucket) Get(event) r
-//@   props C08, C09
+//@   props C08, C09, C02
 //@   requires mb != nil
 //@   ensures[def] r == (validEvent(event) ? mb.counter[event] : 0)
 //@   modifies nothing
@@ -109,7 +109,7 @@ package base
 // the result lists, in slot order, exactly the live buckets whose start satisfies the predicate:
 // slot i (if picked) is at position countTrue(pick, i), and the length is countTrue(pick, length)
 //@ func (la *LeapArray) ValuesConditional(now, predicate) r
-//@   props C08
+//@   props C08, C02
 //@   requires arrayOK(la) && now < 4611686018427387904
 //@   let pick = seqof(i, 0 <= i && i < la.array.length && now > 0 && live(la, now, la.array.data[i]) && predicate(la.array.data[i].BucketStart))
 //@   ensures[time-zero] now == 0 ==> len(r) == 0
@@ -149,7 +149,7 @@ package base
 // ---- P1 selection: a view reads exactly the live buckets whose start lies in its bucket-aligned window
 //@ spec func inWindow(m, now, s) = max(0, startOf(now, m.real.data.bucketLengthInMs) - m.intervalInMs + m.real.data.bucketLengthInMs) <= s && s <= startOf(now, m.real.data.bucketLengthInMs)
 //@ func (m *SlidingWindowMetric) getSatisfiedBuckets(now) r
-//@   props C08
+//@   props C08, C02
 //@   requires m != nil && m.real != nil && arrayOK(m.real.data) && m.real.data.bucketLengthInMs > 0 && now < 4611686018427387904
 //@   let la = m.real.data
 //@   let pick = seqof(i, 0 <= i && i < la.array.length && now > 0 && live(la, now, la.array.data[i]) && inWindow(m, now, la.array.data[i].BucketStart))
@@ -168,7 +168,7 @@ package base
 //@ spec func bounded(v) = 0 - 1099511627776 <= v && v <= 1099511627776
 
 //@ func (m *SlidingWindowMetric) count(event, values) r
-//@   props C08
+//@   props C08, C02
 //@   requires validEvent(event) && len(values) <= 65536
 //@   requires forall j Int :: 0 <= j && j < len(values) ==> isBucket(values[j]) && bounded(bucketOf(values[j]).counter[event])
 //@   let vals = seqof(j, bucketOf(values[j]).counter[event])
@@ -179,14 +179,14 @@ package base
 
 // ---- compaction: summing over the compacted list equals summing over the picked slots (proved by induction)
 //@ spec rec isum(p (Array Int Bool), v (Array Int Int), k Int) Int = k <= 0 ? 0 : isum(p, v, k - 1) + (sel(p, k - 1) ? sel(v, k - 1) : 0)
-//@ ilemma compaction {C08} (pick (Array Int Bool), vr (Array Int Int), vd (Array Int Int), n Int) induction i
+//@ ilemma compaction {C08,C02} (pick (Array Int Bool), vr (Array Int Int), vd (Array Int Int), n Int) induction i
 //@   requires forall k Int :: 0 <= k && k < n && sel(pick, k) ==> sel(vr, countTrue(pick, k)) == sel(vd, k)
 //@   ensures 0 <= countTrue(pick, i) && (i <= n ==> seqsum(vr, countTrue(pick, i)) == isum(pick, vd, i))
 
 // a view's sum is the sum, over the array's slots, of the counters of the live buckets in the aligned window
 //@ spec func bucketsOK(la, event) = forall i Int :: 0 <= i && i < la.array.length && la.array.data[i] != nil ==> isBucket(la.array.data[i]) && bounded(bucketOf(la.array.data[i]).counter[event])
 //@ func (m *SlidingWindowMetric) getSumWithTime(now, event) r
-//@   props C08
+//@   props C08, C02
 //@   requires m != nil && m.real != nil && arrayOK(m.real.data) && m.real.data.bucketLengthInMs > 0 && now < 4611686018427387904
 //@   requires validEvent(event) && m.real.data.array.length <= 65536 && bucketsOK(m.real.data, event)
 //@   let la = m.real.data
@@ -274,7 +274,7 @@ package base
 //@ spec func slotBucketsOK(la) = (forall i Int :: 0 <= i && i < la.array.length ==> allocated(la.array.data[i])) && (forall i Int :: 0 <= i && i < la.array.length && la.array.data[i] != nil ==> isBucket(la.array.data[i])) && (forall i Int :: forall j Int :: 0 <= i && i < j && j < la.array.length && la.array.data[i] != nil ==> la.array.data[i] != la.array.data[j])
 
 //@ func (la *LeapArray) currentBucketOfTime(now, bg) (w, err)
-//@   props C08, C09
+//@   props C08, C09, C02
 //@   requires geomOK(la) && slotBucketsOK(la) && now < 4611686018427387904
 //@   let idx = slotOf(now, la.bucketLengthInMs, la.array.length)
 //@   let start = startOf(now, la.bucketLengthInMs)
@@ -301,7 +301,7 @@ package base
 // recording at time now (not behind the slot's current bucket) credits exactly `count` to exactly the bucket that
 // starts at startOf(now), refreshing the slot first if it still holds an older bucket; nothing else changes
 //@ func (bla *BucketLeapArray) addCountWithTime(now, event, count)
-//@   props C08, C09
+//@   props C08, C09, C02
 //@   requires bla != nil && geomOK(bla.data) && slotBucketsOK(bla.data) && bucketsDistinct(bla.data) && 0 < now && now < 4611686018427387904 && validEvent(event) && small(count)
 //@   let la = bla.data
 //@   let idx = slotOf(now, la.bucketLengthInMs, la.array.length)
